@@ -56,6 +56,8 @@ def perturb(v, nested=True):
     elif isinstance(v, float):
         if v == v and v not in (float("inf"), float("-inf")):
             out += [v - 1.0, v + 1.0, v - 0.2, v + 0.2]
+            # far outside the relative tolerance, yet tiny in absolute terms
+            out += [v * (1 + 1e-6) if v else 1e-12, v + 1e-12 if abs(v) < 1e-3 else v * (1 - 1e-6)]
     elif isinstance(v, str):
         out += [v + "z", "Z" + v[1:] if v else "Z"]
         if v:
@@ -215,6 +217,8 @@ def make_zoo():
         "\x00", "\ud800", "é" * 3, "a" * 1000, b"\xff",
         {None: 1}, {(1, 2): 1}, {frozenset([1]): 1}, {1.5: 1}, {b"k": 1}, {10 ** 30: 1},
         {E: 1}, {True: 1},
+        # several mutually unorderable keys / members at once
+        {None: 1, (1, 2): 2, "k": 3, 1.5: 4, b"k": 5}, [None, (1, 2), "k", 1.5, b"k", float("nan")],
     ]
     return z
 
@@ -254,6 +258,10 @@ def inject(v, z, max_out=None):
             if hashable(z):
                 w = cp(node)
                 w[z] = 1
+                out.append(rebuild(w))
+                w = cp(w)                   # two extra keys of unrelated kinds at once
+                w[None if z is not None else 0] = 1
+                w[(0,)] = 1
                 out.append(rebuild(w))
             for k, x in node.items():
                 def rb(new, k=k, node=node):
